@@ -80,3 +80,12 @@ Definition send_end (receivers w : Z) : Z * send_end_out :=
   let tracker := hi w in
   if (receivers <? tracker) || negb (lo w =? u32 (tracker + maxi)) then (w, SePanic)
   else (0, SeRet tracker).
+
+(* The same final step with the load and the CAS kept apart: [wl] is the word loaded (and validated), [wc] the word
+   the CompareAndSwap(state, 0) finds.  The CAS is the last disjunct of the `if`, so it is attempted only when the
+   two validations passed; when it fails the call panics and the word stays [wc]. *)
+Definition send_end_cas (receivers wl wc : Z) : Z * send_end_out :=
+  match snd (send_end receivers wl) with
+  | SePanic => (wc, SePanic)
+  | SeRet n => if wc =? wl then (0, SeRet n) else (wc, SePanic)
+  end.
